@@ -80,11 +80,15 @@ QLoop(T, cs, i, a, b, st) ==
        IF sc >= b THEN [v |-> b, st |-> r.st]
        ELSE QLoop(T, cs, i + 1, IF sc > a THEN sc ELSE a, b, r.st)
 
-\* Sw = [repGE, rootGuard]: switches for the bug variants
+\* Sw = [repGE, rootGuard, maxPly, plyGuard]: switches for the bug variants.  maxPly is the length of the per-ply tables
+\* (pv / current line / killers, MAX_DEPTH = 100 in search.rs); check extensions and the null move's ply offset can carry a
+\* line past it.  plyGuard = TRUE (repaired): a node at ply >= maxPly is a horizon node (capture search only);
+\* FALSE (before the repair): the table access at such a node is out of bounds - st.oob records the panic.
 RECURSIVE AB(_, _, _, _, _, _, _, _, _), Loop(_, _, _, _, _, _, _, _, _, _, _), After(_, _, _, _, _, _, _, _, _, _, _, _)
 AB(T, Sw, n, d, ply, a, b, allowNull, st) ==
   LET t == Clock(st) IN
   IF t.exp THEN [v |-> NEGINF, st |-> t.st]
+  ELSE IF Sw.plyGuard /\ ply >= Sw.maxPly THEN Quiesce(T, n, a, b, t.st)
   ELSE
   LET s1 == NodeInc(t.st) IN
   IF IsRep(Sw.repGE, s1.rep, T.key[n]) THEN [v |-> 0, st |-> s1]
@@ -106,6 +110,7 @@ AB(T, Sw, n, d, ply, a, b, allowNull, st) ==
   ELSE
   LET ks == T.kids[n]  s3 == nm.st IN
   IF Len(ks) = 0 THEN [v |-> IF T.chk[n] THEN -(MATE - ply) ELSE 0, st |-> Rem(T, s3, n)]
+  ELSE IF ply >= Sw.maxPly THEN [v |-> 0, st |-> [Rem(T, s3, n) EXCEPT !.oob = TRUE]]      \* pv_moves[ply]: index out of bounds
   ELSE
   LET r0 == AB(T, Sw, ks[1], dd - 1, ply + 1, -b1, -a1, TRUE, s3)
       best0 == -r0.v IN
@@ -161,7 +166,7 @@ Deepen(T, Sw, cur, maxD, order, o) ==
 
 Run(T, Sw, k, rep0, maxD) ==
   Deepen(T, Sw, 1, maxD, T.roots, [infos |-> <<>>, sends |-> <<>>, best |-> 0,
-                                  st |-> [q |-> 0, k |-> k, rep |-> rep0, nodes |-> 0]])
+                                  st |-> [q |-> 0, k |-> k, rep |-> rep0, nodes |-> 0, oob |-> FALSE]])
 
 \* text of a score as send_search_info prints it: <<"mate", Y>> or <<"cp", X>>
 ScoreText(ev) == IF ev >= MATE - MateWindow THEN <<"mate", (MATE - ev + 1) \div 2>>
